@@ -1042,6 +1042,13 @@ __xml_namespace__ = "https://dummy.com"
     ),
 ]
 
+def _shared_targeted() -> List[Tuple[str, str]]:
+    # models of C08 that exercise generator paths of every target (line breaking)
+    from vf.checks import c08
+
+    return [("targeted/very-long-names", c08.LONG_NAMES_MODEL)]
+
+
 def worker(args) -> Dict[str, Any]:
     argv, spec, n_instances, n_mutants, timeouts = args
     chk = harness.Check("C09", "exploration", RULE, argv)
@@ -1092,7 +1099,7 @@ def main(argv) -> int:
     # generated and corpus models interleaved, so that a run cut short has seen both
     generated: List[Tuple] = [("mmg", i) for i in range(n_models)]
     fixtures: List[Tuple] = [("corpus", name, text) for name, text in corpus.small_common()]
-    specs: List[Tuple] = [("targeted", name, text) for name, text in TARGETED]
+    specs: List[Tuple] = [("targeted", name, text) for name, text in TARGETED + _shared_targeted()]
     while generated or fixtures:
         if generated:
             specs.append(generated.pop(0))
